@@ -65,13 +65,13 @@ CHECKS = {
     "C05": dict(cat="model_checking", tech="TLC enumeration of term structures (MC_Loss.tla) + exact conformance of the IC / normalisation / observation terms against LossSemantics.tla (Trace_Func.tla)",
                 text="Initial-condition (ODE tuple, PDE function over cartesian and paired batches), normalisation (sample counts, volumes, non-constant u, sliced solution, batch times) and observation terms "
                      "(slices, weights, observed parameters entering u) are compared exactly with their definitions.",
-                note="polynomial networks; normalisation for a scalar (sliced) solution", ref="3.6 C05"),
+                note="polynomial networks; normalisation of a solution slice with one or two components", ref="3.6 C05"),
     "C06": dict(cat="model_checking", tech="TLC exhaustive enumeration of derivative specifications (MC_Masks.tla) + exact gradient conformance (Trace_Func.tla)",
                 text="Every assignment of {selected, not selected} to every (term, group) pair is enumerated (512 / 4096 / 32768 masks; quick: all ODE masks + a covering subset); the gradient of the total loss under each "
-                     "mask must equal the exact sum of the selected per-term gradients, term values must not depend on the mask; string forms and the default are replayed too.",
+                     "mask must equal the exact sum of the selected per-term gradients, term values must not depend on the mask; string forms and the default are replayed too, and every loss kind is also evaluated with a parameter batch (vmapped-parameters path of each term).",
                 note="u = V*k1 + k2 so that every pair has a non-zero gradient; per-term reference gradients measured with everything selected", ref="3.6 C06"),
     "C12": dict(cat="model_checking", tech="TLC enumeration of batched-key subsets and heterogeneity maps (MC_Loss.tla) + exact conformance against LossSemantics!ParamsRow/HetParams (Trace_Func.tla)",
-                text="Every subset of batched keys of a 3-key parameter set x shapes x loss kinds x heterogeneity maps x observed parameters, with tagged parameter tables; every term is compared with the oracle "
+                text="Every subset of batched keys of a 3-key parameter set x shapes x loss kinds x heterogeneity maps x observed parameters x normalisation / boundary terms next to the batch, with tagged parameter tables; every term is compared with the oracle "
                      "in which sample i sees row i of the batched keys and the caller's value of the others, and heterogeneous parameters are replaced inside the equation only.",
                 note="polynomial networks/residuals/heterogeneity maps; exact under x64", ref="3.6 C12"),
     "C13": dict(cat="model_checking", tech="TLC enumeration of system structures (MC_Loss.tla) + exact conformance of SystemLossODE/SystemLossPDE against LossSemantics!SysTerms (Trace_Func.tla)",
@@ -79,7 +79,7 @@ CHECKS = {
                      "equations asymmetric in t and x; the 1x1 system = plain loss is a lemma of the oracle checked on the records.",
                 note="polynomial one-output networks and equations returning shape (1,) residuals; exact under x64", ref="3.6 C13"),
     "C20": dict(cat="model_checking", tech="TLC model checking of Purity.tla (all call orders) + replay of TLC-emitted call sequences on real objects, validated by Trace_Purity.tla",
-                text="Every order of evaluations (loss x batch variant x eager/jit/value-and-grad) and draws (fresh and re-used generator states, eager/jit) up to length 3-4 is enumerated; the sequences are executed "
+                text="Every order of evaluations (loss x batch variant x eager / jit closing over the loss / jit with the loss as an argument / value-and-grad) and draws (fresh and re-used generator states, eager/jit) up to length 3-4 is enumerated; the sequences are executed "
                      "on real losses (single and system) and generators; fingerprints of every argument before/after each call and of every result must satisfy ArgsUnchanged, repeatability and mode invariance.",
                 note="bitwise cross-mode comparison only on exact-arithmetic problems (x64); generator-only sequences run in the default 32-bit mode; fingerprints hash structure, array bytes and user dictionaries", ref="3.5 C20"),
     "C02": dict(cat="model_checking", tech="TLC enumeration of equation x parameter-role x key-layout structures (MC_Equations.tla) + exact conformance of DynamicLoss.evaluate against Equations.tla (Trace_Func.tla)",
